@@ -132,7 +132,7 @@ func vLexLE(a, b weight) bool {
 // selector agrees with the page, and `:nth(An+B)` matches page number i (1-based) iff
 // i = A*n + B for some integer n >= 0 (css-syntax An+B).
 //@ func pageTypeMatch
-//@   props C12 C05
+//@   props C12 C05 C03
 //@   nopanic
 //@   let sel = selectorPageType
 //@   let base = (sel.Side == "" || sel.Side == pageType.Side) && (!sel.Blank || pageType.Blank) && (!sel.First || pageType.First) && (sel.Name == "" || sel.Name == pageType.Name)
